@@ -48,6 +48,9 @@ for kind, nm, ns, register, tier in (("crossbar", 2, 2, False, "quick"), ("cross
                                      ("arbiter", 2, 1, False, "quick"), ("decoder", 1, 2, False, "quick"), ("crossbar", 2, 2, True, "thorough")):
     VARIANTS[f"{kind}({nm}x{ns},register={register})+stb_pauses"] = (tier, dict(kind=kind, nm=nm, ns=ns, register=register, back_to_back=True, timeout=None, pauses=True))
 # masters of different address widths, the narrower one first: the shared bus must carry the widest address
+for _k, _nm, _ns in (("decoder", 1, 2), ("shared", 2, 2), ("crossbar", 2, 2)):
+    VARIANTS[f"{_k}({_nm}x{_ns},register=True,writes only,zero-wait slaves)"] = ("quick", dict(kind=_k, nm=_nm, ns=_ns, register=True, back_to_back=True, timeout=None,
+                                                                                              writes_only_zero_wait=True))
 VARIANTS["shared(2x3,register=False,adr widths 5/6)"] = ("quick", dict(kind="shared", nm=2, ns=3, register=False, back_to_back=False, timeout=None, adr_widths=(5, 6)))
 VARIANTS["shared(2x3,register=False,adr widths 6/5)"] = ("thorough", dict(kind="shared", nm=2, ns=3, register=False, back_to_back=False, timeout=None, adr_widths=(6, 5)))
 VARIANTS["crossbar(2x3,register=False,adr widths 5/6)"] = ("quick", dict(kind="crossbar", nm=2, ns=3, register=False, back_to_back=False, timeout=None, adr_widths=(5, 6)))
